@@ -65,7 +65,11 @@ type c10Case struct {
 	rules   []c10Rule
 	herr    *c10Err
 	hook    *c10Hook
-	ct      string // request content type ("" = none, raw only)
+	ct      string // request content type ("" = none, raw only); for client calls: the EFFECTIVE content type
+	// client calls: the client-level content type ("" = constructor default) and the per-call override (nil = none)
+	clientCT string
+	callCT   *string
+	split    bool // clientCT/callCT are given separately (else the client-level option carries ct)
 	// transport
 	call    bool
 	method  string
@@ -229,13 +233,19 @@ func (c *c10Case) scenario(b *Built, id string) map[string]any {
 	if c.call {
 		sc["kind"] = "call"
 		sc["method"] = c.method
-		in := map[string]string{"Create": "rterr.v1.CreateReq", "Guarded": "rterr.v1.CreateReq", "Get": "rterr.v1.GetReq"}[c.method]
+		in := map[string]string{"Create": "rterr.v1.CreateReq", "Guarded": "rterr.v1.CreateReq", "Get": "rterr.v1.GetReq", "Update": "rterr.v1.UpdReq"}[c.method]
 		m := dynamicpb.NewMessage(b.MessageDesc(in))
 		for k, v := range c.callReq {
 			SetField(m, k, v)
 		}
 		sc["req"] = WireHex(m)
 		opts := map[string]any{"ContentType": c.ct}
+		if c.split {
+			opts = map[string]any{"ContentType": c.clientCT}
+			if c.callCT != nil {
+				opts["CallContentType"] = *c.callCT
+			}
+		}
 		if c.callHdr != nil {
 			opts["CallHeaders"] = c.callHdr
 		}
@@ -301,6 +311,38 @@ func (e *c10Err) coq() string {
 }
 
 const proseMark = "<prose>"
+
+func (c *c10Case) coqCT() string {
+	if !c.call {
+		return "RawCT " + CoqStr(c.ct)
+	}
+	opt := func(s *string) string {
+		if s == nil {
+			return "None"
+		}
+		return "(Some " + CoqStr(*s) + ")"
+	}
+	if c.split {
+		cl := &c.clientCT
+		if c.clientCT == "" {
+			cl = nil
+		}
+		return "CallCT " + opt(cl) + " " + opt(c.callCT)
+	}
+	return "CallCT " + opt(&c.ct) + " None"
+}
+
+// effectiveCT: the harness's own reading of "the content type of the call": the per-call override when
+// given, else the client-level value, else the client's default application/json.
+func effectiveCT(clientCT string, callCT *string) string {
+	if callCT != nil && *callCT != "" {
+		return *callCT
+	}
+	if clientCT != "" {
+		return clientCT
+	}
+	return "application/json"
+}
 
 func (c *c10Case) coqSource() string {
 	switch c.srcKind {
@@ -469,12 +511,13 @@ func (c *c10Case) decodeBody(b *Built, body []byte) any {
 }
 
 type c10Obs struct {
-	Status     int  `json:"status"`
+	Status     int    `json:"status"`
 	CT         string `json:"ct"`
-	HookHeader bool `json:"hook_header"`
-	Handler    bool `json:"handler"`
-	Body       any  `json:"body"`
-	Client     any  `json:"client"`
+	HookHeader bool   `json:"hook_header"`
+	Handler    bool   `json:"handler"`
+	Body       any    `json:"body"`
+	Client     any    `json:"client"`
+	ReqCT      string `json:"-"` // Content-Type the client put on the wire (oracle only)
 }
 
 func (c *c10Case) observe(b *Built, o *RunnerObsX) *c10Obs {
@@ -496,6 +539,9 @@ func (c *c10Case) observe(b *Built, o *RunnerObsX) *c10Obs {
 	if c.hook != nil && c.hook.Header != nil && !strings.EqualFold(c.hook.Header[0], "Content-Type") {
 		v := o.SentHeader[textproto.CanonicalMIMEHeaderKey(c.hook.Header[0])]
 		ob.HookHeader = len(v) == 1 && v[0] == c.hook.Header[1]
+	}
+	if c.call && len(o.Requests) > 0 {
+		ob.ReqCT = strings.Join(o.Requests[0].Header["Content-Type"], ",")
 	}
 	body, _ := hex.DecodeString(o.RespBodyHex)
 	ob.Body = c.decodeBody(b, body)
@@ -608,6 +654,9 @@ func oracleC10(c *c10Case, b *Built, ob *c10Obs) (bool, string) {
 		case "custom":
 			wantKind = c.herr.Custom.Type
 		}
+	}
+	if c.call && ob.ReqCT != c.ct {
+		return false, fmt.Sprintf("the client sent Content-Type %q, the call's content type is %q", ob.ReqCT, c.ct)
 	}
 	if ob.Handler != (c.srcKind == "handler") {
 		return false, fmt.Sprintf("handler ran = %v for a %s failure", ob.Handler, c.srcKind)
@@ -828,11 +877,11 @@ func CheckC10(run *Run) {
 			hk = string(j)
 		}
 		cr := &CaseResult{ID: fmt.Sprintf("%s#%d", c.family, i), Family: c.family,
-			Input:       map[string]any{"scenario": scen[i]},
-			Obs:         ob, OracleHolds: holds, OracleNote: note, NonTrivial: true,
+			Input: map[string]any{"scenario": scen[i]},
+			Obs:   ob, OracleHolds: holds, OracleNote: note, NonTrivial: true,
 			Features: []string{"src:" + c.srcKind, "ct:" + c.ct, "hook:" + hk, map[bool]string{true: "call", false: "raw"}[c.call]}}
 		results = append(results, cr)
-		ccs = append(ccs, CoqCase{Term: fmt.Sprintf("(%s, %s, %s, %s)", c.coqSource(), c.hook.coq(), CoqStr(c.ct), CoqBool(c.call)), Obs: ob})
+		ccs = append(ccs, CoqCase{Term: fmt.Sprintf("(%s, %s, %s)", c.coqSource(), c.hook.coq(), c.coqCT()), Obs: ob})
 	}
 	vs, err := CoqRun(run.WorkDir, "c10", "From Sebuf Require Import Text Json Schema Value Headers Errors.\n", "", "c10_case", "predict_C10", ccs, 16)
 	if err != nil {
@@ -842,6 +891,7 @@ func CheckC10(run *Run) {
 		cr.Apply(vs[i])
 		run.Results = append(run.Results, cr)
 	}
+	run.Results = append(run.Results, c10Order(run, s, b)...)
 	ts := <-tsCh
 	run.Results = append(run.Results, ts.res...)
 	run.Extra["ts_runtime"] = ts.note
@@ -855,7 +905,7 @@ func CheckC10(run *Run) {
 func c10Cases(rng *rand.Rand, thorough bool) []*c10Case {
 	var out []*c10Case
 	hooks := c10Hooks()
-	callCTs := []string{"application/json", "application/x-protobuf", "application/json; charset=utf-8"}
+	callCTs := []string{"application/json", "application/x-protobuf", "application/octet-stream", "application/json; charset=utf-8"}
 	rawCTs := []string{"application/json", "application/x-protobuf", "application/octet-stream", "text/plain", "", "application/x-protobuf; v=1", "application/json;charset=utf-8"}
 	pickHooks := func(full bool) []*c10Hook {
 		if full || thorough {
@@ -873,7 +923,7 @@ func c10Cases(rng *rand.Rand, thorough bool) []*c10Case {
 	for ei, e := range c10Errors() {
 		primary := ei%len(c10Errors()) < 0 || e.Msg == "boom" || (e.Kind == "validation" && len(e.Violations) == 2) || (e.Kind == "custom" && e.Custom == c10Customs[0]) || (e.Kind == "custom" && e.Custom == c10Customs[3])
 		for _, ct := range callCTs {
-			hs := pickHooks(primary && ct != "application/json; charset=utf-8")
+			hs := pickHooks(primary && ct != "application/json; charset=utf-8" && ct != "application/octet-stream")
 			if !primary && !thorough {
 				// the 400-without-violations corner: hook forces 400 on whatever body the error has
 				hs = append(hs, &c10Hook{Status: 400})
@@ -882,9 +932,14 @@ func c10Cases(rng *rand.Rand, thorough bool) []*c10Case {
 				add(&c10Case{family: "handler-error", srcKind: "handler", herr: e, hook: h, ct: ct, call: true, method: "Create", callReq: map[string]any{"name": "n"}})
 			}
 		}
-		// octet-stream through the client only on a body-less verb (the client writes JSON bodies under that type: C01)
+		// a binary content type with parameters (binary for the server, JSON for the client) through the client,
+		// on a body-less verb (on body verbs the client's JSON body is refused by the server: C01)
 		for _, h := range pickHooks(false)[:2] {
-			add(&c10Case{family: "handler-error-octet", srcKind: "handler", herr: e, hook: h, ct: "application/octet-stream", call: true, method: "Get",
+			add(&c10Case{family: "handler-error-param-binary", srcKind: "handler", herr: e, hook: h, ct: "application/x-protobuf; charset=utf-8", call: true, method: "Get",
+				callReq: map[string]any{"id": "i", "mode": "m"}})
+		}
+		if ei%4 == 0 || thorough {
+			add(&c10Case{family: "handler-error-param-binary", srcKind: "handler", herr: e, hook: &c10Hook{Status: 400}, ct: "application/octet-stream;x=1", call: true, method: "Get",
 				callReq: map[string]any{"id": "i", "mode": "m"}})
 		}
 		// raw: unknown / absent / parameterised content types
@@ -901,10 +956,47 @@ func c10Cases(rng *rand.Rand, thorough bool) []*c10Case {
 			}
 		}
 	}
+	// client-level content type x per-call override (none / same / different, JSON <-> binary both ways) x
+	// error source x status: the server answers in the CALL's content type and the client must decode with it
+	{
+		levels := []string{"", "application/json", "application/x-protobuf", "application/octet-stream"}
+		overrides := []*string{nil, str(""), str("application/json"), str("application/x-protobuf"), str("application/octet-stream"), str("application/x-protobuf; charset=utf-8")}
+		ohooks := []*c10Hook{nil, {Status: 418}, {Status: 400}, {RetMsg: true}}
+		errs := []*c10Err{{Kind: "plain", Msg: "backend down"}, {Kind: "sebuf", Msg: ""}, {Kind: "validation", Violations: [][2]string{{"a.b", "bad"}, {"c", "worse"}}},
+			{Kind: "custom", Custom: c10Customs[0]}, {Kind: "validation", Violations: [][2]string{{"x", "y"}}, Wrap: true}}
+		k := 0
+		for _, lv := range levels {
+			for _, ov := range overrides {
+				eff := effectiveCT(lv, ov)
+				mk := func(c *c10Case) {
+					c.split, c.clientCT, c.callCT, c.ct, c.call = true, lv, ov, eff, true
+					add(c)
+				}
+				for _, h := range ohooks {
+					k++
+					if !thorough && h != nil && k%2 == 0 {
+						continue
+					}
+					for _, e := range errs {
+						if strings.Contains(eff, ";") { // parameterised binary type: only on the body-less verb (see above)
+							mk(&c10Case{family: "call-override", srcKind: "handler", herr: e, hook: h, method: "Get", callReq: map[string]any{"id": "i", "mode": "m"}})
+						} else {
+							mk(&c10Case{family: "call-override", srcKind: "handler", herr: e, hook: h, method: "Create", callReq: map[string]any{"name": "n"}})
+						}
+					}
+					if !strings.Contains(eff, ";") {
+						mk(&c10Case{family: "call-override", srcKind: "header", field: "X-Token", desc: "required header 'X-Token' is missing", hook: h, method: "Guarded", callReq: map[string]any{"name": "n"}})
+						mk(&c10Case{family: "call-override", srcKind: "rule", rules: c10RuleSets[2], hook: h, method: "Create", callReq: map[string]any{"name": "n"}})
+					}
+					mk(&c10Case{family: "call-override", srcKind: "query", field: "mode", desc: "missing required query parameter: mode", hook: h, method: "Get", callReq: map[string]any{"id": "i"}})
+				}
+			}
+		}
+	}
 	// rule violations (scripted protovalidate)
 	for ri, rs := range c10RuleSets {
 		for _, ct := range callCTs {
-			for _, h := range pickHooks(ri == 3 && ct != "application/json; charset=utf-8") {
+			for _, h := range pickHooks(ri == 3 && ct != "application/json; charset=utf-8" && ct != "application/octet-stream") {
 				add(&c10Case{family: "rule-violation", srcKind: "rule", rules: rs, hook: h, ct: ct, call: true, method: "Create", callReq: map[string]any{"name": "n"}})
 			}
 		}
@@ -964,4 +1056,133 @@ func c10Cases(rng *rand.Rand, thorough bool) []*c10Case {
 		}
 	}
 	return out
+}
+
+// c10Order: requests on which several stages of the binding middleware fail at once (required header,
+// body, URL value, scripted rule): which failure is answered, and whether the body was read.
+func c10Order(run *Run, s *Session, b *Built) []*CaseResult {
+	type cand struct {
+		stage, coq, field string
+	}
+	all := []cand{
+		{"header", "(StHeader, SViolations [(" + CoqStr("X-Upd") + ", " + CoqStr("required header 'X-Upd' is missing") + ")])", "X-Upd"},
+		{"body", "(StBody, SViolations [(" + CoqStr("body") + ", " + CoqStr(proseMark) + ")])", "body"},
+		{"url", "(StUrl, SViolations [(" + CoqStr("limit") + ", " + CoqStr(proseMark) + ")])", "limit"},
+		{"rule", "(StRule, SRule [(Some [" + CoqStr("name") + "], " + CoqStr("r") + ")])", "name"},
+	}
+	var scen []any
+	type oc struct {
+		set  []cand
+		ct   string
+		mask int
+	}
+	var ocs []oc
+	for mask := 1; mask < 16; mask++ {
+		for _, ct := range []string{"application/json", "application/x-protobuf", "text/plain"} {
+			var set []cand
+			for i, c := range all {
+				if mask&(1<<i) != 0 {
+					set = append(set, c)
+				}
+			}
+			sc := map[string]any{"id": fmt.Sprint(len(scen)), "kind": "raw", "pkg": "rterr", "service": "Errs", "verb": "PUT", "script": map[string]any{}}
+			hs := [][2]string{{"Content-Type", ct}}
+			if mask&1 == 0 {
+				hs = append(hs, [2]string{"X-Upd", "7"})
+			}
+			sc["headers"] = hs
+			body := []byte(`{"name":"n"}`)
+			if c10BinaryCT(ct) {
+				body = []byte{0x1a, 0x01, 'n'}
+			}
+			if mask&2 != 0 {
+				body = []byte(`{"name":`)
+				if c10BinaryCT(ct) {
+					body = []byte{0xff, 0xff}
+				}
+			}
+			sc["body"] = hex.EncodeToString(body)
+			sc["target"] = "/e/things/i"
+			if mask&4 != 0 {
+				sc["target"] = "/e/things/i?limit=abc"
+			}
+			if mask&8 != 0 {
+				sc["validate"] = []map[string]any{{"path": []string{"name"}, "msg": "r"}}
+			}
+			scen = append(scen, sc)
+			ocs = append(ocs, oc{set, ct, mask})
+		}
+	}
+	raw, err := RunScenarios(s.Runner, scen, 1)
+	if err != nil {
+		run.Fatal("runner: %v", err)
+	}
+	var ccs []CoqCase
+	var results []*CaseResult
+	for i, o := range ocs {
+		var ro RunnerObsX
+		if err := json.Unmarshal(raw[i], &ro); err != nil || ro.Error != "" {
+			run.Fatal("order case %d: %v %s", i, err, ro.Error)
+		}
+		body, _ := hex.DecodeString(ro.RespBodyHex)
+		ve := &sebufhttp.ValidationError{}
+		var uerr error
+		if c10BinaryCT(o.ct) {
+			uerr = proto.Unmarshal(body, ve)
+		} else {
+			uerr = protojson.Unmarshal(body, ve)
+		}
+		var bj any = map[string]any{"undecodable": hex.EncodeToString(body)}
+		field := ""
+		if uerr == nil {
+			vs := []any{}
+			for _, v := range ve.GetViolations() {
+				d := v.GetDescription()
+				if v.GetField() == "body" || v.GetField() == "limit" {
+					d = proseMark
+				}
+				vs = append(vs, []string{v.GetField(), d})
+				if field == "" {
+					field = v.GetField()
+				}
+			}
+			bj = map[string]any{"type": "ValidationError", "violations": vs}
+		}
+		ob := map[string]any{"status": ro.Status, "body": bj, "handler": len(ro.HandlerCalls) > 0, "body_read": ro.BodyRead}
+		// oracle: 400, one violation, naming one of the failing things; a header failure is decided before the body is read
+		holds, note := true, ""
+		okField := false
+		for _, c := range o.set {
+			if c.field == field {
+				okField = true
+			}
+		}
+		switch {
+		case ro.Panic != "":
+			holds, note = false, "panic: "+firstLine(ro.Panic)
+		case ro.Status != 400 || len(ro.HandlerCalls) > 0:
+			holds, note = false, fmt.Sprintf("a failing request was answered %d (handler ran: %v)", ro.Status, len(ro.HandlerCalls) > 0)
+		case len(ve.GetViolations()) != 1 || !okField:
+			holds, note = false, "the violation does not name one of the failing parts: "+field
+		case o.mask&1 != 0 && (field != "X-Upd" || ro.BodyRead):
+			holds, note = false, "a missing required header is not what is reported, or the body was read first"
+		}
+		var terms, names []string
+		for _, c := range o.set {
+			terms = append(terms, c.coq)
+			names = append(names, c.stage)
+		}
+		cr := &CaseResult{ID: fmt.Sprintf("stage-order#%d", i), Family: "stage-order", Input: map[string]any{"failing": names, "scenario": scen[i]},
+			Obs: ob, OracleHolds: holds, OracleNote: note, NonTrivial: true, Features: []string{"stages:" + strings.Join(names, "+"), "ct:" + o.ct}}
+		results = append(results, cr)
+		ccs = append(ccs, CoqCase{Term: "([" + strings.Join(terms, "; ") + "], " + CoqStr(o.ct) + ")", Obs: ob})
+	}
+	vs, err := CoqRun(run.WorkDir, "c10order", "From Sebuf Require Import Text Json Schema Value Headers Errors.\n", "", "(list (stage * source) * str)", "predict_C10_order", ccs, 1)
+	if err != nil {
+		run.Fatal("model evaluation (stage order): %v", err)
+	}
+	for i, cr := range results {
+		cr.Apply(vs[i])
+	}
+	return results
 }
